@@ -97,7 +97,10 @@ DropField(S, i)   == [S EXCEPT !.fields = SubSeq(S.fields, 1, i - 1) \o SubSeq(S
 AddField(S, f)    == LET k == Cardinality({ i \in 1..Len(S.fields) : S.fields[i].idx < f.idx }) IN
                      [S EXCEPT !.fields = SubSeq(S.fields, 1, k) \o <<f>> \o SubSeq(S.fields, k + 1, Len(S.fields))]
 FreeAll(S) == {0, 1, 3, 4, 6, 25} \ { S.fields[i].idx : i \in 1..Len(S.fields) }
-FreeIdx(S) == IF Tier = "quick" THEN { CHOOSE x \in FreeAll(S) : \A y \in FreeAll(S) : x <= y, 25 } ELSE FreeAll(S)
+FreeIdx(S) == LET lo == CHOOSE x \in FreeAll(S) : \A y \in FreeAll(S) : x <= y
+                  below == FreeAll(S) \ {25}
+                  hi == CHOOSE x \in below : \A y \in below : y <= x IN
+              IF Tier = "quick" THEN {lo, 25} ELSE {lo, hi, 25}
 Readers(S) == { DropField(S, i) : i \in { j \in 1..Len(S.fields) : S.fields[j].opt } }
               \cup { AddField(S, F(n, TRUE, t, ty)) : n \in FreeIdx(S), t \in {-1, 7}, ty \in (IF Tier = "quick" THEN {"u8"} ELSE {"u8", "str"}) }
               \* a new optional field of a nested struct / enum / byte-string type (it meets the null of a gap, a short array, a missing key)
@@ -111,7 +114,12 @@ EnumHosts == { Struct(e, -1, "named", <<F(0, FALSE, -1, "u8"), Fo(1, -1, ty, sp)
 CompatTy(a, b) == a = b \/ {a, b} \in {{"e2", "e2x"}, {"e2", "e2u"}, {"io", "iox"}, {"e2m", "e2mu"}, {"e2a", "e2au"}}
 HostReaders(S) == { SetField(S, 2, [S.fields[2] EXCEPT !.ty = ty]) : ty \in { t \in HostTys : CompatTy(t, S.fields[2].ty) } }
 PairWriters == IF Tier = "quick" THEN { S \in ThreeFieldsQ : S.shape = "named" /\ S.fields[3].idx \in {2, 5} } \cup EnumHosts ELSE ThreeFieldsQ \cup EnumHosts
-ReadersOf(S) == IF S \in EnumHosts THEN HostReaders(S) ELSE Readers(S) \cup { r2 : r2 \in UNION { Readers(r1) : r1 \in { x \in Readers(S) : Tier # "quick" } } }
+\* (two changes in a row; an index the writer uses is never given another meaning: dropping a field and adding a different one
+\* under its index is not among the documented compatible changes)
+TwoStep(S) == S.shape = "named" /\ S.fields[3].idx \in {2, 5}          \* (the writers of the quick tier: the others get single changes)
+KeepsMeaning(S, R) == \A j \in 1..Len(R.fields) : \A i \in 1..Len(S.fields) : R.fields[j].idx = S.fields[i].idx => R.fields[j] = S.fields[i]
+ReadersOf(S) == IF S \in EnumHosts THEN HostReaders(S)
+                ELSE Readers(S) \cup { r2 \in UNION { Readers(r1) : r1 \in { x \in Readers(S) : Tier # "quick" /\ TwoStep(S) } } : KeepsMeaning(S, r2) }
 
 \* writers with a field of arbitrary content that the reader does not know: in the middle (a gap / an unknown key) and at the end (surplus)
 AnyWriters == { Struct(e, -1, "named", <<F(0, FALSE, -1, "u8"), F(k, TRUE, -1, "any"), F(5, TRUE, -1, "str")>>) : e \in Encs, k \in {2, 9} }
